@@ -1395,7 +1395,7 @@ package server
 //@   at $1 call ValidForPrefix#4 before
 //@     assert [C06,C03:outgoing-scan-stops-only-when-the-index-is-exhausted-or-the-page-is-full] (0 <= $itPos[outgoingIterator] && $itPos[outgoingIterator] < N($itTxn[outgoingIterator]) && hasPfx(K($itTxn[outgoingIterator], $itPos[outgoingIterator]), $itPlen[outgoingIterator], $itPcl[outgoingIterator], $itPds[outgoingIterator], $itP64[outgoingIterator]) && kcl(K($itTxn[outgoingIterator], $itPos[outgoingIterator])) == encBE16(searchBuffer, 0) && k64at2(K($itTxn[outgoingIterator], $itPos[outgoingIterator])) == encBE64(searchBuffer, 2)) ==> limit != 0 && len(results) >= limit
 //@   at $1 call copy#1 before
-//@     ghost delG := put(delG, predID, del)
+//@     ghost delG := put(delG, predID, encBE16(k, 34))
 //@     ghost prevPredG := predID
 //@   at $1 call append#1 before
 //@     assert [C03:incoming-results-flushed-only-when-the-newest-scanned-key-of-the-related-entity-is-live] delG[prevPredG] != 1
